@@ -175,6 +175,7 @@ func instrumentPkg(repo, rel, pkgName, out string, replace map[string]string, fu
 		off := func(p token.Pos) int { return int(p) - base }
 		relName, _ := filepath.Rel(repo, sf.path)
 		used := false
+		timeAlias := ""
 
 		if wasmMain {
 			add(off(sf.f.Name.Pos()), len(sf.f.Name.Name), "verifwasm", false)
@@ -299,12 +300,20 @@ func instrumentPkg(repo, rel, pkgName, out string, replace map[string]string, fu
 					if rewriteSubtleValue(x, info, pkgAlias, fset, relName, off, add) {
 						used = true
 					}
+					if al := rewriteTimeWait(x, info, pkgAlias, off, add); al != "" {
+						used = true
+						timeAlias = al
+					}
 				}
 				return true
 			})
 		}
 		if !used && len(sp) == 0 {
 			continue
+		}
+		if timeAlias != "" {
+			add(len(sf.src), 0, "\nvar _ = "+timeAlias+".Now // the rewritten waits may have been the only use of the import\n", false)
+			timeAlias = ""
 		}
 		if used {
 			// import on the package clause line keeps every line number intact
@@ -439,6 +448,37 @@ func rewriteShortCircuit(x *ast.BinaryExpr, info *types.Info, fset *token.FileSe
 }
 
 var subtleValueFuncs = map[string]bool{"ConstantTimeByteEq": true, "ConstantTimeEq": true, "ConstantTimeSelect": true, "ConstantTimeLessOrEq": true}
+
+// rewriteTimeWait routes time.Sleep / After / NewTimer / AfterFunc through the runtime (the waiting a call asks for
+// becomes a deterministic, observable quantity).  Returns the file's name for package time when it rewrote a call.
+func rewriteTimeWait(c *ast.CallExpr, info *types.Info, alias map[string]string, off func(token.Pos) int, add func(int, int, string, bool)) string {
+	sel, ok := c.Fun.(*ast.SelectorExpr)
+	if !ok || !timeWaitFuncs[sel.Sel.Name] {
+		return ""
+	}
+	id, ok := sel.X.(*ast.Ident)
+	if !ok {
+		return ""
+	}
+	var path string
+	if info != nil {
+		if pn, ok := info.Uses[id].(*types.PkgName); ok {
+			path = pn.Imported().Path()
+		} else if info.Uses[id] != nil {
+			return ""
+		}
+	}
+	if path == "" {
+		path = alias[id.Name]
+	}
+	if path != "time" {
+		return ""
+	}
+	add(off(sel.Pos()), int(sel.End()-sel.Pos()), "verifrt."+sel.Sel.Name, false)
+	return id.Name
+}
+
+var timeWaitFuncs = map[string]bool{"Sleep": true, "After": true, "NewTimer": true, "AfterFunc": true}
 
 // rewriteSubtleValue wraps calls of crypto/subtle's single-value primitives so that each call is a trace event.
 func rewriteSubtleValue(c *ast.CallExpr, info *types.Info, alias map[string]string, fset *token.FileSet, file string, off func(token.Pos) int, add func(int, int, string, bool)) bool {
